@@ -12,6 +12,7 @@ import PPV.Model.ConnectivityRun
 import PPV.Model.FixedNode
 import PPV.Model.GroupSum
 import PPV.Gen.FluidData
+import PPV.Model.ToolboxRun
 
 open PPV
 
@@ -71,6 +72,7 @@ def handle (line : String) : String :=
     let reg := (PPV.Model.Newton.Run.toks (parts.getD 1 "")).map PPV.Model.Newton.Run.parseRat
     let v := PPV.Model.Newton.Run.parseRat ((parts.getD 2 "").trimAscii.toString)
     PPV.Model.Newton.Run.showRat (PPV.Model.Fluid.pumpPressure reg v)
+  | "toolbox" :: _ => PPV.Model.Toolbox.Run.handle (line.trimAscii.toString.splitOn "::")
   | _ => "bad-op"
 
 partial def loop (h : IO.FS.Stream) (out : IO.FS.Stream) : IO Unit := do
